@@ -13,6 +13,7 @@ import (
 	"fmt"
 	"go/token"
 	"go/types"
+	"strings"
 )
 
 type schan struct {
@@ -286,30 +287,85 @@ func (s *Sched) run() (pathStatus, string) {
 			}
 			break
 		}
-		// candidates under the pre-emption bound
-		cands := en
-		curEnabled := false
-		for _, g := range en {
-			if g == s.cur {
-				curEnabled = true
+		var pick *gor
+		if db := s.p.cfg.DelayBound; db >= 0 {
+			// delay-bounded scheduling (Emmi, Qadeer, Rakamaric 2011): a deterministic
+			// non-preemptive round-robin scheduler, and every schedule that deviates
+			// from it at most db times
+			var def *gor
+			for _, g := range en {
+				if g == s.cur {
+					def = g
+				}
 			}
-		}
-		if curEnabled {
-			if s.preempt >= s.p.eng.cfg.Preempt || s.cur.atomic > 0 {
-				cands = []*gor{s.cur}
-			} else {
-				// current first
-				cands = []*gor{s.cur}
+			if def == nil {
+				start := 0
+				if s.cur != nil {
+					start = s.cur.id + 1
+				}
+				// environment events (cancellation, timers) are never the default:
+				// taking one is a deviation, so every placement of an event along the
+				// default schedule costs exactly one delay
+				best := -1
+				for _, wantEnv := range []bool{false, true} {
+					for _, g := range en {
+						if g.env != wantEnv {
+							continue
+						}
+						d := (g.id - start + len(s.gs)) % len(s.gs)
+						if best < 0 || d < best {
+							best, def = d, g
+						}
+					}
+					if def != nil {
+						break
+					}
+				}
+			}
+			cands := []*gor{def}
+			if s.preempt < db && (s.cur == nil || s.cur.atomic == 0) {
 				for _, g := range en {
-					if g != s.cur {
+					if g != def {
 						cands = append(cands, g)
 					}
 				}
 			}
-		}
-		pick := cands[s.p.choose(len(cands))]
-		if curEnabled && pick != s.cur {
-			s.preempt++
+			pick = cands[s.p.choose(len(cands))]
+			if pick != def {
+				s.preempt++
+			}
+		} else {
+			// candidates under the pre-emption bound
+			cands := en
+			curEnabled := false
+			for _, g := range en {
+				if g == s.cur {
+					curEnabled = true
+				}
+			}
+			if curEnabled {
+				// lock acquisitions, WaitGroup waits and quiescence waits are blocking
+				// points only: no pre-emption is placed in front of them (a stated
+				// reduction; pre-emptions go before channel operations, selects, closes,
+				// context reads/cancels, atomics and environment events)
+				k := s.cur.wait.kind
+				noPreempt := !s.p.cfg.PreemptAtLocks && (k == wLock || k == wRLock || k == wWG || k == wQuiesce)
+				if s.preempt >= s.p.cfg.Preempt || s.cur.atomic > 0 || noPreempt {
+					cands = []*gor{s.cur}
+				} else {
+					// current first
+					cands = []*gor{s.cur}
+					for _, g := range en {
+						if g != s.cur {
+							cands = append(cands, g)
+						}
+					}
+				}
+			}
+			pick = cands[s.p.choose(len(cands))]
+			if curEnabled && pick != s.cur {
+				s.preempt++
+			}
 		}
 		s.cur = pick
 		pick.resume <- true
@@ -375,6 +431,11 @@ func (g *gor) logStep(op string, pos token.Pos, c int) {
 			break
 		}
 	}
+	up := st.UPos
+	if up == "" {
+		up = st.Pos
+	}
+	st.Skip = up == "" || strings.HasPrefix(up, "/") || strings.HasPrefix(up, "internal/zzverif/")
 	s.trace = append(s.trace, st)
 }
 
